@@ -93,6 +93,8 @@ class SpecMixin:
         if len(gen.generators) != 1 or gen.generators[0].ifs or not isinstance(gen.generators[0].target, ast.Name):
             return NotImplemented
         it = self.eval(gen.generators[0].iter)
+        if isinstance(it, Ref) and isinstance(self.heap.get(it), Obj) and '_od' in self.heap.get(it).fields:
+            it = self.heap.get(it).fields['_od']        # OrderedDict subclass (SizeLimitDict): quantify over its map
         if not (isinstance(it, Ref) and isinstance(self.heap.get(it), MapObj)):
             return NotImplemented
         m = self.heap.get(it)
@@ -202,6 +204,9 @@ class SpecMixin:
                                                'is_trailer': self.fresh(name + '.is_trailer', 'bool'),
                                                'is_response_header': self.fresh(name + '.is_response', 'bool'),
                                                'is_push_promise': self.fresh(name + '.is_push', 'bool')}))
+        if desc == 'framebuf':
+            from .deps_model import sym_framebuf
+            return sym_framebuf(self, desc, name)
         if desc == 'hdrlist':
             from .hdrmodel import sym_hdrlist
             return sym_hdrlist(self, desc, name)
